@@ -53,9 +53,9 @@ AllIndices(r) ==
 \* vertex set of side s of block i, and "quad q lists side s of block i"
 SideVerts(r, i, s) == { BV(r, i, c) : c \in SideCorners(s) }
 LocalCorner(r, i, v) == CHOOSE c \in Corners : BV(r, i, c) = v
-QuadIsSide(r, q, i, s) ==
-    /\ Len(q) = 4
-    /\ Range(q) = SideVerts(r, i, s)
+QuadHasSideVerts(r, q, i, s) == Len(q) = 4 /\ Range(q) = SideVerts(r, i, s)
+QuadIsSide(r, q, i, s) ==      \* lists the side as one of its 4-cycles
+    /\ QuadHasSideVerts(r, q, i, s)
     /\ Cardinality(SideVerts(r, i, s)) = 4 =>
           IsCycle([j \in 1..4 |-> LocalCorner(r, i, q[j])])
 
@@ -97,7 +97,8 @@ C06_patchquads(r) ==     \* every assigned side appears as a quad of that patch;
     \A n \in ExpPatchNames(r) :
         (\E p \in Range(F(r).boundary) : p.name = n) =>
         LET p == FilePatch(r, n) IN
-        /\ \A x \in ExpPatchSides(r, n) : \E j \in 1..Len(p.quads) : QuadIsSide(r, p.quads[j], x[1], x[2])
+        \* a geometric side assigned by two operations is listed once, as a 4-cycle of (at least) one of them
+        /\ \A x \in ExpPatchSides(r, n) : \E j \in 1..Len(p.quads) : QuadHasSideVerts(r, p.quads[j], x[1], x[2])
         /\ \A j \in 1..Len(p.quads) : \E x \in ExpPatchSides(r, n) : QuadIsSide(r, p.quads[j], x[1], x[2])
         /\ \A j, k \in 1..Len(p.quads) : Range(p.quads[j]) = Range(p.quads[k]) => j = k
 C06_patchtypes(r) ==
@@ -109,7 +110,7 @@ C06_patchtypes(r) ==
 ExpFaces(r) == { <<i, s>> \in (1..NLive(r)) \X SideNames : Op(r, i).sproj[SideIdx(s)] # "" }
 C06_faces(r) ==
     /\ \A x \in ExpFaces(r) : \E f \in Range(F(r).faces) :
-          QuadIsSide(r, f.quad, x[1], x[2]) /\ (r.unique_face_labels => f.label = Op(r, x[1]).sproj[SideIdx(x[2])])
+          QuadHasSideVerts(r, f.quad, x[1], x[2]) /\ (r.unique_face_labels => f.label = Op(r, x[1]).sproj[SideIdx(x[2])])
     /\ \A f \in Range(F(r).faces) : \E x \in ExpFaces(r) :
           QuadIsSide(r, f.quad, x[1], x[2]) /\ (r.unique_face_labels => f.label = Op(r, x[1]).sproj[SideIdx(x[2])])
     /\ \A a, b \in 1..Len(F(r).faces) : Range(F(r).faces[a].quad) = Range(F(r).faces[b].quad) => a = b
